@@ -48,6 +48,7 @@ OnAsm(r, ev) ==
   /\ Check(r.refuse = "", "reject-" \o r.refuse, <<"the program was accepted; it must be refused:", r.refuse>>)
   /\ Check(r.d.phase = "boot", "order", <<"asm in phase", r.d.phase>>)
   /\ Check(Len(ev.code) = Len(r.C.code), "asm", <<"instructions emitted", Len(ev.code), "source instructions", Len(r.C.code)>>)
+  /\ Check(Len(ev.data) = Len(r.P.data), "asm", <<"data lines emitted", Len(ev.data), "data directives in the source", Len(r.P.data)>>)
   /\ run' = [r EXCEPT !.d.phase = "load"]
 
 OnLoaded(r, ev) ==
